@@ -21,8 +21,11 @@ STREAM_RECORDS = ("Istream", "Ostream")
 PROPS_RECORD = "TextModeProperties"
 
 
+CARRIERS = STREAM_RECORDS + ("FILE", "basic_ostream", "basic_istream")
+
+
 def has_stream_param(fn):
-    return any(any(r in p["t"] for r in STREAM_RECORDS) for p in fn.params)
+    return any(any(r in p["t"] for r in CARRIERS) for p in fn.params)
 
 
 def is_stream_method(fn):
@@ -90,7 +93,7 @@ def extract_ops(effects, direction):
             if rec in STREAM_RECORDS and m in ("fwrite", "fread") and len(x["args"]) == 2:
                 ops.append({"op": "bin", "dir": "w" if m == "fwrite" else "r", "ptr": x["args"][0],
                             "size": x["args"][1], "l": x["l"]})
-            elif rec in STREAM_RECORDS:
+            elif rec in STREAM_RECORDS and x.get("kind") != "construct" and not m.startswith("~"):
                 ops.append({"op": "raw", "method": m, "args": x["args"], "l": x["l"]})
             elif rec == PROPS_RECORD:
                 sec = sections.setdefault(x["this"], {"op": "text", "dir": None, "title": None, "props": [],
@@ -298,6 +301,23 @@ def canon_op(o, ren, loopren=None):
     if o["op"] == "while":
         return ("while", s(o["cond"]), tuple(canon_op(b, ren, loopren) for b in o["body"]))
     return (o["op"],)
+
+
+def normalize_serials(struct):
+    """renumber the allocation serials of ("obj",name,args,n) / ("new",type,size,n) terms by first appearance"""
+    ren = {}
+
+    def go(t):
+        if isinstance(t, tuple):
+            if len(t) == 4 and t and t[0] in ("obj", "new") and isinstance(t[3], int):
+                if t[3] not in ren:
+                    ren[t[3]] = len(ren) + 1
+                return (t[0], t[1], go(t[2]), ren[t[3]])
+            return tuple(go(x) for x in t)
+        if isinstance(t, list):
+            return [go(x) for x in t]
+        return t
+    return go(struct)
 
 
 def total_size(ops):
